@@ -23,6 +23,7 @@ function load(repoDir, opts) {
 var __get = function(name) { return eval(name); };
 var __eval = function(code) { return eval(code); };
 return {get: __get, eval: __eval};`;
+  if (typeof globalThis.require === 'undefined') { globalThis.require = require; }
   const realRandom = Math.random;
   if (opts.random) { Math.random = opts.random; }
   const fn = new Function(pre + src + post);
